@@ -138,16 +138,23 @@ class VCSStrategyGit(VCSStrategy):
             if entry
         ]
         # Each entry looks a little like 'submodule.submodule.path\nmy_path'.
-        return {Path(entry.splitlines()[1]) for entry in submodule_entries}
+        # Everything after the first newline is the path; it may itself
+        # contain line breaks.
+        return {
+            Path(entry.split("\n", maxsplit=1)[1])
+            for entry in submodule_entries
+        }
 
     def is_ignored(self, path: StrPath) -> bool:
         path = relative_from_root(path, self.root)
         return path in self._all_ignored_files
 
     def is_submodule(self, path: StrPath) -> bool:
+        # The paths in .gitmodules are relative to the root, not to the
+        # current working directory.
+        resolved = (self.root / relative_from_root(path, self.root)).resolve()
         return any(
-            relative_from_root(path, self.root).resolve()
-            == submodule_path.resolve()
+            resolved == (self.root / submodule_path).resolve()
             for submodule_path in self._submodules
         )
 
